@@ -895,12 +895,12 @@ func race(l *loc, t *task, site int32, write bool, other int32, otherWrite bool,
 		return "read"
 	}
 	d := map[string]string{
-		"location":   fmt.Sprintf("loc#%d", l.ord),
-		"access":     fmt.Sprintf("task %d %s at %s", t.id, rw(write), siteDesc(site)),
-		"conflicts":  fmt.Sprintf("task %d %s at %s", otherTask, rw(otherWrite), siteDesc(other)),
-		"site_a":     fmt.Sprint(site),
-		"site_b":     fmt.Sprint(other),
-		"unordered":  "no happens-before edge (mutex, once, atomic or publication) between the two accesses",
+		"location":  fmt.Sprintf("loc#%d", l.ord),
+		"access":    fmt.Sprintf("task %d %s at %s", t.id, rw(write), siteDesc(site)),
+		"conflicts": fmt.Sprintf("task %d %s at %s", otherTask, rw(otherWrite), siteDesc(other)),
+		"site_a":    fmt.Sprint(site),
+		"site_b":    fmt.Sprint(other),
+		"unordered": "no happens-before edge (mutex, once, atomic or publication) between the two accesses",
 	}
 	abortRun(&Violation{Class: "DATA_RACE", Key: key, Detail: d}, "")
 }
@@ -996,10 +996,10 @@ func MapPairs[M ~map[K]V, K comparable, V any](m M, site int32) []KV[K, V] {
 // clock
 
 var (
-	clockMu   sync.Mutex
-	clockSet  bool
-	clockNow  time.Time
-	clockTick time.Duration
+	clockMu    sync.Mutex
+	clockSet   bool
+	clockNow   time.Time
+	clockTick  time.Duration
 	ClockReads uint64
 )
 
